@@ -15,6 +15,10 @@
 (* the data (sizes, CRCs, dropped / added / swapped WAL entries, missing database entry, other    *)
 (* payload kinds).  Optional transport wrapper (store/transport.go: zstd Compressor on the sender, *)
 (* raft's io.LimitReader(conn, req.Size) and the Decompressor on the receiver).                   *)
+(* COMPOUND mutations (added after a seeded change slipped through, see notes/C10.md): a          *)
+(* header-field edit of ONE file's entry TOGETHER WITH an alteration of that file's payload -     *)
+(* "checksum cleared / its tag bit flipped" x "payload byte altered", and "size field -1 / +1" x  *)
+(* "payload one byte shorter / longer": see Compounds.                                            *)
 (*                                                                                                *)
 (* Acceptors, transcribed from the code:                                                          *)
 (*   Sink   snapshot/sink.go Sink.Write (buffer until the header is complete, processHeader,      *)
@@ -30,13 +34,17 @@
 (*   CRCOnRestore    Restore compares the inline CRC32 of every file with the header              *)
 (*   RejectTrailing  Restore requires end-of-stream after the declared payload                    *)
 (*   ValidateFiles   IsValidSQLiteFile / IsValidSQLiteWALFile on what was received                *)
+(*   ZeroCRCCompared a header checksum that decodes as ZERO (proto3: field absent - cleared, or    *)
+(*                   its tag byte flipped into an unknown field) is compared like any other value  *)
+(*                   (FALSE: "no checksum recorded" is taken to mean "nothing to compare")         *)
 (*   CompressionTransparent  what the receiver's decompressor delivers is exactly what the        *)
 (*                   sender's compressor read, whatever the data (FALSE: the wire form of         *)
 (*                   incompressible data is longer than req.Size and is cut by raft's LimitReader) *)
 EXTENDS Integers, Sequences, FiniteSets, TLC, Json
 
 CONSTANTS MaxWals, MaxChunk,
-          CheckSizes, CRCOnInstall, CRCOnRestore, RejectTrailing, ValidateFiles, CompressionTransparent
+          CheckSizes, CRCOnInstall, CRCOnRestore, RejectTrailing, ValidateFiles, CompressionTransparent,
+          ZeroCRCCompared
 
 FC == 3
 Where(j) == IF j = 1 THEN "first" ELSE IF j = FC THEN "last" ELSE "mid"
@@ -76,9 +84,20 @@ EndDesc == [sec |-> "end", file |-> 0, where |-> "-"]
 NoneDesc == [sec |-> "-", file |-> 0, where |-> "-"]
 HdrEdits(nw) ==
   {M("hdr", NoneDesc, e) : e \in {"db-size-dec", "db-size-inc", "db-crc", "wal-add-empty", "db-nil", "payload-none", "payload-inc"}}
-  \cup {M("hdr", [NoneDesc EXCEPT !.file = i], e) : i \in 1..nw, e \in {"wal-size-dec", "wal-size-inc", "wal-crc"}}
+  \cup {M("hdr", NoneDesc, "db-crc-zero")}
+  \cup {M("hdr", [NoneDesc EXCEPT !.file = i], e) : i \in 1..nw, e \in {"wal-size-dec", "wal-size-inc", "wal-crc", "wal-crc-zero"}}
   \cup (IF nw >= 1 THEN {M("hdr", NoneDesc, "wal-drop-last")} ELSE {})
   \cup (IF nw >= 2 THEN {M("hdr", NoneDesc, "wal-drop-first"), M("hdr", NoneDesc, "wal-swap")} ELSE {})
+(* compound: the header entry of file f is edited AND the payload of file f is altered.           *)
+(*   crc-zero+flip      checksum field cleared (re-marshalled without it) + a payload byte altered *)
+(*   crc-tagflip+flip   one bit of the checksum's TAG byte flipped (unknown field => decodes as 0) *)
+(*                      + a payload byte altered - two single-bit errors                           *)
+(*   size-dec+drop      size field - 1 and the file's last byte dropped (consistent truncation)    *)
+(*   size-inc+insert    size field + 1 and a byte inserted after the file's last (extension)       *)
+Compounds(nw) ==
+  LET D == CellDesc(nw) IN
+  {M("compound", D[i], e) : i \in 3..NCells(nw), e \in {"crc-zero+flip", "crc-tagflip+flip"}}
+  \cup {M("compound", D[2 + FC * (f + 1)], e) : f \in 0..nw, e \in {"size-dec+drop", "size-inc+insert"}}
 Mutations(nw) ==
   LET D == CellDesc(nw) IN
   {M("none", NoneDesc, "-")}
@@ -88,13 +107,17 @@ Mutations(nw) ==
   \cup {M("insert", D[i], "-") : i \in 1..NCells(nw)} \cup {M("insert", EndDesc, "-")}
   \cup {M("truncate", D[i], "-") : i \in 1..NCells(nw)}
   \cup HdrEdits(nw)
+  \cup Compounds(nw)
 
+ZeroCrc == <<>>          \* what an absent / cleared checksum decodes to (= the checksum of no bytes)
 EditHeader(h, m) ==
   LET i == m.file
       dbh == h.db[1] IN
   CASE m.edit = "db-size-dec" -> [h EXCEPT !.db = <<[dbh EXCEPT !.size = @ - 1]>>]
     [] m.edit = "db-size-inc" -> [h EXCEPT !.db = <<[dbh EXCEPT !.size = @ + 1]>>]
     [] m.edit = "db-crc" -> [h EXCEPT !.db = <<[dbh EXCEPT !.crc = <<BadCell(0, 1)>>]>>]
+    [] m.edit = "db-crc-zero" -> [h EXCEPT !.db = <<[dbh EXCEPT !.crc = ZeroCrc]>>]
+    [] m.edit = "wal-crc-zero" -> [h EXCEPT !.wals[i].crc = ZeroCrc]
     [] m.edit = "wal-size-dec" -> [h EXCEPT !.wals[i].size = @ - 1]
     [] m.edit = "wal-size-inc" -> [h EXCEPT !.wals[i].size = @ + 1]
     [] m.edit = "wal-crc" -> [h EXCEPT !.wals[i].crc = <<BadCell(i, 1)>>]
@@ -120,6 +143,22 @@ Mutate(nw, m) ==
     [] m.kind = "insert" -> SubSeq(s, 1, i - 1) \o <<XCell>> \o SubSeq(s, i, n)
     [] m.kind = "truncate" -> SubSeq(s, 1, i - 1)
     [] m.kind = "hdr" -> [s EXCEPT ![2] = HCell(EditHeader(s[2].h, m))]
+    [] m.kind = "compound" ->
+         LET f == m.file
+             h0 == s[2].h
+             zeroed == IF f = 0 THEN [h0 EXCEPT !.db = <<[h0.db[1] EXCEPT !.crc = ZeroCrc]>>]
+                       ELSE [h0 EXCEPT !.wals[f].crc = ZeroCrc]
+             shorter == IF f = 0 THEN [h0 EXCEPT !.db = <<[h0.db[1] EXCEPT !.size = @ - 1]>>]
+                        ELSE [h0 EXCEPT !.wals[f].size = @ - 1]
+             longer == IF f = 0 THEN [h0 EXCEPT !.db = <<[h0.db[1] EXCEPT !.size = @ + 1]>>]
+                       ELSE [h0 EXCEPT !.wals[f].size = @ + 1]
+             last == 2 + FC * (f + 1) IN                    \* index of the last cell of file f
+         CASE m.edit \in {"crc-zero+flip", "crc-tagflip+flip"} ->
+                [s EXCEPT ![2] = HCell(zeroed), ![i] = BadCell(f, s[i].v[2])]
+           [] m.edit = "size-dec+drop" ->
+                LET t == [s EXCEPT ![2] = HCell(shorter)] IN SubSeq(t, 1, last - 1) \o SubSeq(t, last + 1, n)
+           [] m.edit = "size-inc+insert" ->
+                LET t == [s EXCEPT ![2] = HCell(longer)] IN SubSeq(t, 1, last) \o <<XCell>> \o SubSeq(t, last + 1, n)
 
 (* ---- transport wrapper ---- *)
 Comps == {"none", "zstd", "zstd-grows"}
@@ -146,6 +185,9 @@ FindHeader(buf) ==
 ValidFile(cells, isDb) ==
   /\ Len(cells) > 0
   /\ cells[1].k = "D" /\ cells[1].v[2] = 1 /\ cells[1].v[3] = 0 /\ (isDb <=> cells[1].v[1] = 0)
+
+(* comparison of a computed checksum with the header's *)
+CrcOK(got, want) == IF ~ZeroCRCCompared /\ want = ZeroCrc THEN TRUE ELSE got = want
 
 (* ---- the sink ---- *)
 SinkInit == [st |-> "hdr", buf |-> <<>>, h |-> NoHdr, phase |-> "db", wi |-> 0, rem |-> 0,
@@ -194,8 +236,8 @@ SinkClose(sk) ==
        ELSE IF ValidateFiles /\ ~(\A i \in 1..Len(fin.files) : ValidFile(fin.files[i], i = 1))
             THEN [sk EXCEPT !.out = "error"]
        ELSE IF CRCOnInstall /\ ~(/\ Len(fin.files) = 1 + Len(fin.h.wals)
-                                 /\ Crc(fin.files[1]) = fin.h.db[1].crc
-                                 /\ \A i \in 1..Len(fin.h.wals) : Crc(fin.files[i + 1]) = fin.h.wals[i].crc)
+                                 /\ CrcOK(Crc(fin.files[1]), fin.h.db[1].crc)
+                                 /\ \A i \in 1..Len(fin.h.wals) : CrcOK(Crc(fin.files[i + 1]), fin.h.wals[i].crc))
             THEN [sk EXCEPT !.out = "error"]
        ELSE [fin EXCEPT !.out = "installed"]
 (* the whole install with one write: the reference every split must agree with *)
@@ -223,7 +265,7 @@ Restore(c) ==
            crcs == <<f.h.db[1].crc>> \o [i \in 1..Len(f.h.wals) |-> f.h.wals[i].crc]
            t == TakeFiles(sizes, f.rest, <<>>) IN
        IF ~t.ok THEN E
-       ELSE IF CRCOnRestore /\ ~(\A i \in 1..Len(sizes) : Crc(t.files[i]) = crcs[i]) THEN E
+       ELSE IF CRCOnRestore /\ ~(\A i \in 1..Len(sizes) : CrcOK(Crc(t.files[i]), crcs[i])) THEN E
        ELSE IF RejectTrailing /\ (t.rest # <<>> \/ in.err) THEN E
        ELSE IF Len(f.h.wals) > 0 /\ ValidateFiles /\ ~(\A i \in 1..Len(t.files) : ValidFile(t.files[i], i = 1)) THEN E   \* db.ReplayWAL
        ELSE [out |-> "installed", files |-> t.files]
